@@ -161,6 +161,11 @@ type runResult struct {
 // resolveFuncs expands a short function name or pattern ("reader.*", "reader.Reader.Uint16").
 func (r *Runner) resolveFuncs(pat string) []string {
 	var out []string
+	for old, now := range r.w.renamedFuncs {
+		if shortKey(old) == pat || old == pat {
+			return []string{now}
+		}
+	}
 	var keys []string
 	for k := range r.w.FuncDecls {
 		keys = append(keys, k)
